@@ -436,8 +436,15 @@ def merge_semantics(rep, rule, prog, cg):
         if mr is None:
             rep.anchor_missing(rule, 'prost::encoding::%s::merge_repeated' % m)
             continue
-        pushes = [cs for x in with_closures(mr, cg) for cs in x.calls() if cs.name == 'push']
-        bad = [cs.name for x in with_closures(mr, cg) for cs in x.calls() if cs.name in ('insert', 'clear', 'truncate', 'pop', 'swap_remove', 'remove')]
+        pushes = [cs for x in with_closures(mr, cg) for cs in x.calls() if cs.name in ('push', 'extend', 'extend_from_slice', 'append')]
+        bad = [cs.name for x in with_closures(mr, cg) for cs in x.calls() if cs.name in ('insert', 'clear', 'truncate', 'pop', 'swap_remove', 'remove', 'replace', 'take', 'swap')]
+        # `*values = ..` replaces what earlier occurrences of the field have accumulated (merge_repeated(wire_type, values, buf, ctx))
+        for x in with_closures(mr, cg):
+            for bb in x.bbs:
+                for st in bb['st']:
+                    p_ = st.get('p')
+                    if p_ and not bb['cleanup'] and p_['p'] == ['*'] and ((x.id == mr.id and p_['l'] == 2) or (x.id != mr.id and 'Vec<' in x.locals[p_['l']]['ty'])):
+                        bad.append('assignment to *values')
         if pushes and not bad:
             rep.ok(rule, key, 'appends with Vec::push', mr.loc())
         else:
